@@ -514,7 +514,7 @@ func cmdCheck(args []string) int {
 		return 2
 	}
 	vseed := envU64("VERIF_SEED", 1)
-	budget := 45.0
+	budget := 60.0
 	if *tier == "thorough" {
 		budget = 900
 	}
